@@ -19,6 +19,9 @@
 (*            flag bits x every presence pattern of the upper levels x every *)
 (*            error code of Codes x {no failure, allocation fails,           *)
 (*            temporary mapping fails}                                       *)
+(*   "upper"  one fault on page 1 with every combination of RW / user /      *)
+(*            bit 9 / no-execute on each upper level in turn (present, or    *)
+(*            present above an absent next level with arbitrary bits)        *)
 (*   "seq"    every sequence of up to MaxOps calls out of: faults on all     *)
 (*            pages (with failures), attempts to map the zero frame through  *)
 (*            each entry point, fork-like sharing, stores, GPF               *)
@@ -37,9 +40,14 @@ Code(fl) == fl[1] + 2 * fl[2] + 4 * fl[3] + 8 * fl[4] + 16 * fl[5]
 AllFlagSets == {Bits(S) : S \in SUBSET (1..5)}
 LazyFl == <<1, 0, 0, 1, 1>>    \* present | copy-on-write | no-execute
 PrivFl == <<1, 1, 0, 0, 1>>
-Up111 == <<1, 1, 1>>
-\* presence patterns of the upper levels as a walk reports them (nothing is seen below an absent level)
+\* an upper-level entry is <<P, RW, US, CoW, NX, table id>>; Map creates them present + writable
+UStd(l) == <<1, 1, 0, 0, 0, 50 + l>>
+UpStd == <<UStd(1), UStd(2), UStd(3)>>
+UEnt(pbit, b, l) == <<pbit, b[1], b[2], b[3], b[4], 50 + l>>
+Up4 == {<<a, b, c, d>> : a \in {0, 1}, b \in {0, 1}, c \in {0, 1}, d \in {0, 1}}
+\* presence patterns of the upper levels (the first 0 = the entry whose present bit the environment cleared)
 UpPatterns == {<<1, 1, 1>>, <<1, 1, 0>>, <<1, 0, 0>>, <<0, 0, 0>>}
+PatUp(pat) == [l \in 1..3 |-> IF pat[l] = 0 /\ \A k \in 1..(l - 1) : pat[k] = 1 THEN UEnt(0, <<1, 0, 0, 0>>, l) ELSE UStd(l)]
 
 VARIABLES pg,        \* page -> [up, fl, f]   (the active address space as a hardware walk sees it)
           content,   \* frame -> content id
@@ -51,9 +59,14 @@ VARIABLES pg,        \* page -> [up, fl, f]   (the active address space as a har
 vars == <<pg, content, nextf, zextra, dead, nops, script, s, mismatch>>
 
 Rec(up, fl, f) == [up |-> up, fl |-> fl, f |-> f]
-NoPage == Rec(<<0, 0, 0>>, <<0, 0, 0, 0, 0>>, 0)
-\* what a walk reports for a page record whose upper levels / entry are as stored
-Seen(r) == IF r.up # Up111 THEN Rec(r.up, <<0, 0, 0, 0, 0>>, 0)
+\* number of upper levels the walk passes (leading present entries)
+Lead(up) == CHOOSE n \in 0..3 : (\A k \in 1..n : up[k][1] = 1) /\ (n = 3 \/ up[n + 1][1] = 0)
+\* what the hardware walk reports for a page whose entries are as stored: entries up to and including the one
+\* that stops it (that one without its table), nothing below
+SeenUp(up) == [l \in 1..3 |-> IF l <= Lead(up) THEN up[l]
+                               ELSE IF l = Lead(up) + 1 THEN <<0, up[l][2], up[l][3], up[l][4], up[l][5], 0>>
+                               ELSE <<0, 0, 0, 0, 0, 0>>]
+Seen(r) == IF Lead(r.up) < 3 THEN Rec(SeenUp(r.up), <<0, 0, 0, 0, 0>>, 0)
            ELSE IF r.fl[1] = 0 THEN Rec(r.up, r.fl, 0) ELSE r
 
 RECURSIVE SeqOfSet(_)
@@ -70,7 +83,7 @@ St(pgs, cont, zx) ==
   IN [z |-> Z, pg |-> [i \in 1..NP |-> Seen(pgs[i])], ct |-> [i \in 1..Len(fs) |-> [f |-> fs[i], c |-> cont[fs[i]]]],
       zrw |-> SetToSeq(zu \cup zx)]
 
-Pg0 == [i \in 1..NP |-> IF i <= 3 THEN Rec(Up111, LazyFl, Z) ELSE Rec(Up111, PrivFl, 2)]
+Pg0 == [i \in 1..NP |-> IF i <= 3 THEN Rec(UpStd, LazyFl, Z) ELSE Rec(UpStd, PrivFl, 2)]
 Content0 == [f \in 1..NF |-> IF f = Z THEN 0 ELSE 100 + f]
 
 \* monitor state after the init event and the set-up calls
@@ -80,11 +93,25 @@ Init ==
   /\ \/ /\ Family = "flags"
         /\ \E fl \in AllFlagSets, up \in UpPatterns :
              \* a page that is to be writable does not sit on the zero frame (the environment never creates the violation itself)
-             /\ pg = [Pg0 EXCEPT ![1] = Rec(up, fl, IF fl[2] = 1 THEN 3 ELSE Z)]
+             /\ pg = [Pg0 EXCEPT ![1] = Rec(PatUp(up), fl, IF fl[2] = 1 THEN 3 ELSE Z)]
              \* the set-up the Go replay performs to get there
              /\ script = (IF fl[2] = 1 THEN <<<<"mapnew", 1, 19>>>> ELSE <<>>) \o <<<<"poke", 1, Code(fl)>>>>
                           \o (CASE up = <<1, 1, 1>> -> <<>> [] up = <<1, 1, 0>> -> <<<<"pokeup", 1, 2, 0>>>>
                                 [] up = <<1, 0, 0>> -> <<<<"pokeup", 1, 1, 0>>>> [] OTHER -> <<<<"pokeup", 1, 0, 0>>>>)
+     \/ /\ Family = "upper"
+        \* (i) every upper level in turn carries every combination of RW / user / bit 9 / no-execute while present,
+        \*     under every last-level flag subset
+        /\ \/ \E l \in 1..3, b \in Up4, fl \in AllFlagSets :
+                /\ pg = [Pg0 EXCEPT ![1] = Rec([UpStd EXCEPT ![l] = UEnt(1, b, l)], fl, IF fl[2] = 1 THEN 3 ELSE Z)]
+                /\ script = (IF fl[2] = 1 THEN <<<<"mapnew", 1, 19>>>> ELSE <<>>) \o <<<<"poke", 1, Code(fl)>>>>
+                             \o <<<<"pokeupf", 1, l - 1, 1 + 2 * b[1] + 4 * b[2] + 8 * b[3] + 16 * b[4]>>>>
+           \* (ii) the walk stops at level l (entry absent, any other bits) below a present level l-1 with any bits
+           \/ \E l \in 1..3, b2 \in Up4, b1 \in Up4 :
+                /\ l = 1 => b1 = <<1, 0, 0, 0>>
+                /\ pg = [Pg0 EXCEPT ![1] = Rec([k \in 1..3 |-> IF k = l THEN UEnt(0, b2, l) ELSE IF k = l - 1 THEN UEnt(1, b1, k) ELSE UStd(k)],
+                                                LazyFl, Z)]
+                /\ script = <<<<"pokeupf", 1, l - 1, 2 * b2[1] + 4 * b2[2] + 8 * b2[3] + 16 * b2[4]>>>>
+                             \o (IF l > 1 THEN <<<<"pokeupf", 1, l - 2, 1 + 2 * b1[1] + 4 * b1[2] + 8 * b1[3] + 16 * b1[4]>>>> ELSE <<>>)
      \/ /\ Family = "seq"
         /\ pg = Pg0
         /\ script = <<>>
@@ -110,7 +137,7 @@ Guarded(f, fl) ==
 MapCall(p, f, fl, via) ==
   /\ ~dead /\ nops < MaxOps
   /\ LET ok == ~Guarded(f, fl)
-         pg2 == IF ok /\ via # 2 THEN [pg EXCEPT ![p] = Rec(Up111, fl, f)] ELSE pg
+         pg2 == IF ok /\ via # 2 THEN [pg EXCEPT ![p] = Rec(UpStd, fl, f)] ELSE pg
          zx2 == IF ok /\ via = 2 /\ f = Z /\ fl[1] = 1 /\ fl[2] = 1 THEN zextra \cup {<<1, p>>} ELSE zextra
      IN /\ pg' = pg2 /\ zextra' = zx2
         /\ Judge([k |-> "map", via |-> via, pg |-> p, fr |-> f, fl |-> Code(fl), res |-> IF ok THEN "ok" ELSE "err:guard",
@@ -148,20 +175,24 @@ Fault(p, code, fail) ==
   /\ ~dead /\ nops < MaxOps
   /\ LET o    == Seen(pg[p])
          \* Lookup: the walk stops at the first absent level; the entry is used only if present
-         have == o.up = Up111 /\ o.fl[1] = 1
-         cow  == have /\ o.fl[4] = 1 /\ (Bug = "NoRWTest" \/ o.fl[2] = 0)
+         have == P!UpPresent(o) /\ o.fl[1] = 1
+         \* design mutant: the last PRESENT entry the walk visited is taken for the page's entry
+         ld    == Lead(pg[p].up)
+         stale == Bug = "StaleUpperEntry" /\ ~have /\ ld >= 1 /\ pg[p].up[ld][2] = 0 /\ pg[p].up[ld][4] = 1
+         cow  == (have /\ o.fl[4] = 1 /\ (Bug = "NoRWTest" \/ o.fl[2] = 0)) \/ stale
          copy == nextf
          allocFails == cow /\ fail = 1
          tmpFails   == cow /\ fail = 2 /\ ~allocFails
          resume == cow /\ (~allocFails \/ Bug = "ResumeAfterAllocFail") /\ (~tmpFails \/ Bug = "ResumeAfterTmpFail")
          done   == cow /\ ~allocFails /\ ~tmpFails            \* the copy is really made
          nfl    == <<1, 1, o.fl[3], IF Bug = "KeepCoW" THEN o.fl[4] ELSE 0, o.fl[5]>>
-         pg2    == IF done THEN [pg EXCEPT ![p] = Rec(Up111, nfl, copy)] ELSE pg
-         ct2    == IF ~done THEN content
+         pg2    == IF done /\ stale THEN [pg EXCEPT ![p].up[ld] = <<1, 1, @[3], 0, @[5], copy>>]
+                   ELSE IF done THEN [pg EXCEPT ![p] = Rec(pg[p].up, nfl, copy)] ELSE pg
+         ct2    == IF ~done \/ stale THEN content
                    ELSE IF Bug = "CopyReversed" THEN [content EXCEPT ![o.f] = content[copy]]
                    ELSE IF Bug = "RetargetBeforeCopy" THEN content          \* the page already shows the new frame: copies it onto itself
                    ELSE [content EXCEPT ![copy] = content[o.f]]
-         fl2    == IF ~done \/ Bug = "NoFlush" THEN <<>>
+         fl2    == IF ~done \/ stale \/ Bug = "NoFlush" THEN <<>>
                    ELSE IF Bug = "FlushBeforeRetarget" THEN <<[pg |-> p, f |-> o.f, rw |-> o.fl[2], cow |-> o.fl[4]]>>
                    ELSE <<[pg |-> p, f |-> copy, rw |-> 1, cow |-> nfl[4]]>>
      IN /\ pg' = pg2 /\ content' = ct2
@@ -193,7 +224,7 @@ Store(p) ==
 SeqFlags == {<<1, 1, 0, 0, 0>>, <<1, 0, 0, 1, 1>>, <<1, 1, 0, 1, 1>>}
 Next ==
   /\ mismatch = <<>>
-  /\ \/ (Family = "flags" /\ \E c \in Codes, fail \in 0..2 : Fault(1, c, fail))
+  /\ \/ (Family \in {"flags", "upper"} /\ \E c \in Codes, fail \in 0..2 : Fault(1, c, fail))
      \/ (Family = "seq" /\ \E p \in 1..NP, fail \in 0..2 : Fault(p, 2, fail))
      \/ (Family = "seq" /\ \E p \in {1, 4}, fl \in SeqFlags, via \in 0..2 : MapZero(p, fl, via))
      \/ (Family = "seq" /\ TmpZero)
